@@ -42,9 +42,168 @@ def _setup_load(it, env):
 
 
 c.setup = _setup_load
+c.callers_inline = True  # the clauses talk about this harness's variants: callers execute the body
 c.returns("returns_the_decoded_dependency", "variant == 'present-envelope' and ENC(result) == CHILD")
 c.raises("ValueError", when="variant != 'present-envelope'", label="absent_or_not_an_envelope")
 
+
+# ------------------------------------------------------------------------------------------------
+# RecursiveSigner.__init__: configuration inheritance and what is handed to the child signers (one level; the recursive
+# construction of a child is the function's OWN contract - any depth).  _import_signer (importlib) is an assumed contract.
+from pyvc.types import Computed, EnumT, Opt, NoneT, Lib  # noqa: E402
+ALG_STRS = ["es-256", "es-384", "es-521", "eddsa", "hash-eddsa"]
+FB = "suit_generator/suit_sign_script_base.py"
+
+ci = Contract(FC, "_import_signer", ["C09"])
+ci.model_only = True
+ci.modular_only_reason = "importlib-based plug-in loading; assumed to yield an instance of the shipped ncs/sign_script.Signer"
+ci.param("sign_script", Str())
+ci.result(Obj("ncs/sign_script.py", "Signer"))
+ci.raises("ValueError")
+
+CHILD_CFG = DictT(optional={"key-name": Str(), "key-id": Str(), "alg": OneOf(*ALG_STRS), "context": Str(), "omit-signing": Bool()})
+NODE_CFG = DictT(optional={"key-name": Str(), "key-id": Str(), "alg": OneOf("es-256", "hash-eddsa"), "context": Str(), "omit-signing": Bool(), "sign-script": Str(), "kms-script": Str(),
+                           "dependencies": DictT(required={"#dep": CHILD_CFG})})
+
+
+def _rs_envelope(it, env):
+    from pyvc.values import VTag, VDict, DEntry, VInt
+    d = VDict()
+    d.entries[2] = DEntry(2, it.fresh_bytes("wrapper"))
+    d.entries[3] = DEntry(3, it.fresh_bytes("manifest"))
+    d.entries["#dep"] = DEntry("#dep", env.lookup("CHILD"))
+    return VTag(VInt(107), d)
+
+
+# the configuration entry of the node: which keys are present is FIXED per variant (a covering set of presence patterns: every key
+# occurs present and absent, with and without dependencies), every value is symbolic
+KEY_TYPES = {"key-name": Str(), "key-id": Str(), "alg": OneOf("es-256", "hash-eddsa"), "context": Str(), "omit-signing": Bool(), "sign-script": Str(), "kms-script": Str(),
+             "dependencies": DictT(required={"#dep": CHILD_CFG})}
+PATTERNS = {
+    "all-keys": list(KEY_TYPES), "only-omit-and-dependencies": ["omit-signing", "dependencies"], "key-only-inherits-everything": ["key-name", "key-id", "dependencies"],
+    "own-alg": ["key-name", "key-id", "alg", "dependencies"], "own-context": ["key-name", "key-id", "context", "dependencies"],
+    "own-sign-script": ["key-name", "key-id", "sign-script", "dependencies"], "own-kms-script": ["key-name", "key-id", "kms-script", "dependencies"],
+    "leaf-with-key": ["key-name", "key-id"], "key-id-without-key-name": ["key-id"], "key-name-without-key-id": ["key-name"],
+    "omitted-leaf-with-alg-and-context": ["omit-signing", "alg", "context"], "all-but-alg": [k for k in KEY_TYPES if k != "alg"],
+}
+
+
+def _cfg(pattern):
+    return DictT(required={k: KEY_TYPES[k] for k in PATTERNS[pattern]})
+
+
+c = Contract(FC, "RecursiveSigner.__init__", ["C09"])
+c.ghost("CHILD", Enc(TagT(107, DictT(required={2: Bytes(), 3: Bytes()}))))
+c.param("self", Obj(FC, "RecursiveSigner"))
+c.param("envelope", Computed(_rs_envelope))
+c.param("envelope_json", _cfg("all-keys"))
+c.variants = [(n, {"envelope_json": _cfg(n)}) for n in PATTERNS]
+c.param("envelope_name", Str())
+c.param("sign_script", Str())
+c.param("kms_script", Str())
+c.param("algorithm", EnumT(FB, "SuitSignAlgorithms"))
+c.param("context", Opt(Str()))
+# (no `modifies`: at the recursive call site the child object stays opaque - the parent's constructor reads nothing of it; a reader of a
+#  child attribute would be flagged, not silently served a made-up value)
+c.raises("ValueError")
+c.max_paths = 6000
+
+
+def _present(it, d, key):
+    """True / False when the path decided whether the optional key is present, else None."""
+    import z3
+    e = d.entries.get(key)
+    if e is None:
+        return False
+    if e.present is True:
+        return True
+    if it.must(e.present):
+        return True
+    if it.must(z3.Not(e.present)):
+        return False
+    return None
+
+
+def _inheritance(it, ctx):
+    """Posts taken from the statement: a node uses its OWN entry when it has one, otherwise what it INHERITED from its parent (the
+    constructor argument); its dependencies are constructed with the node's resulting script / KMS / algorithm / context (so they
+    inherit the node's values, not the grandparent's or the tool's default), with their own configuration entry and name."""
+    import z3
+    if ctx.outcome != "return":
+        return None
+    slf, cfg = ctx.arg("self"), ctx.old("envelope_json")
+    goals = []
+
+    def own_or_inherited(attr, key, inherited, conv=lambda v: v):
+        p = _present(it, cfg, key)
+        if p is None:
+            return goals.append((f"{attr}_own_entry_or_inherited", None))
+        want = conv(cfg.entries[key].value) if p else inherited
+        got = slf.attrs.get(attr)
+        goals.append((f"{attr}_own_entry_or_inherited", _same(it, got, want)))
+    own_or_inherited("context", "context", ctx.old("context"))
+    own_or_inherited("sign_script", "sign-script", ctx.old("sign_script"))
+    own_or_inherited("kms_script", "kms-script", ctx.old("kms_script"))
+    own_or_inherited("alg", "alg", ctx.old("algorithm"), conv=lambda v: _alg_member(it, v))
+    # key name / id come from the node's own entry only
+    for attr, key in (("key_name", "key-name"),):
+        p = _present(it, cfg, key)
+        if p is not None:
+            goals.append((f"{attr}_from_own_entry_only", _same(it, slf.attrs.get(attr), cfg.entries[key].value if p else NONE_V())))
+    p_omit = _present(it, cfg, "omit-signing")
+    if p_omit is not None:
+        from pyvc.values import VBool
+        goals.append(("omit_signing_from_own_entry", _same(it, slf.attrs.get("omit_signing"), cfg.entries["omit-signing"].value if p_omit else VBool(False))))
+    # the children
+    calls = [t for t in it.trace if t[0] == "call" and t[1] == "RecursiveSigner.__init__"]
+    p_dep = _present(it, cfg, "dependencies")
+    if p_dep is None:
+        return goals + [("dependencies_constructed", None)]
+    goals.append(("one_child_signer_per_named_dependency", z3.BoolVal(len(calls) == (1 if p_dep else 0) and len(slf.attrs["dependencies"].items) == (1 if p_dep else 0))))
+    if p_dep and len(calls) == 1:
+        a = calls[0][2]
+        goals.append(("child_inherits_this_nodes_algorithm", _same(it, a["algorithm"], slf.attrs["alg"])))
+        goals.append(("child_inherits_this_nodes_context", _same(it, a["context"], slf.attrs["context"])))
+        goals.append(("child_inherits_this_nodes_scripts", z3.And(_same(it, a["sign_script"], slf.attrs["sign_script"]), _same(it, a["kms_script"], slf.attrs["kms_script"]))))
+        goals.append(("child_gets_its_own_entry_and_name", z3.And(z3.BoolVal(a["envelope_json"] is cfg.entries["dependencies"].value.entries["#dep"].value or _is_snapshot_of(a["envelope_json"], cfg.entries["dependencies"].value.entries["#dep"].value)),
+                                                                  _same(it, a["envelope_name"], __import__("pyvc.values", fromlist=["VStr"]).VStr("#dep")))))
+    return goals
+
+
+def NONE_V():
+    from pyvc.values import NONE
+    return NONE
+
+
+def _is_snapshot_of(a, b):
+    from pyvc.values import VDict
+    return isinstance(a, VDict) and isinstance(b, VDict) and list(a.entries) == list(b.entries)
+
+
+def _alg_member(it, v):
+    from pyvc.values import VClass
+    ci_ = it.get_class(FB, "SuitSignAlgorithms")
+    for m in it.iterate(VClass(info=ci_)):
+        if m.value.conc == v.conc:
+            return m
+    return None
+
+
+def _same(it, a, b):
+    import z3
+    from pyvc.values import VEnum, VNone, VStr, VInt, VBool
+    if a is None or b is None:
+        return z3.BoolVal(False)
+    if isinstance(a, VEnum) or isinstance(b, VEnum):
+        return z3.BoolVal(isinstance(a, VEnum) and isinstance(b, VEnum) and a.cls is b.cls and a.name == b.name)
+    if isinstance(a, VNone) or isinstance(b, VNone):
+        return z3.BoolVal(isinstance(a, VNone) and isinstance(b, VNone))
+    if type(a) is not type(b):
+        return z3.BoolVal(False)
+    return a.e == b.e
+
+
+c.check("inheritance", _inheritance)
 
 # ================================================================================================
 # B — bounded stand-in
@@ -133,17 +292,21 @@ def bounded(ctx):
         if pre_sign_b:
             _, childB = S.check_single(repo, d, keys, childB, "eddsa", 99)
         root = S.make_envelope("root", deps=[("#A", childA), ("#B", childB)], payloads=[("#unnamed", b"\x01\x02\x03")], seed=variant)
+        # inherited defaults: a node WITHOUT an "alg" entry signs with the algorithm of the nearest ancestor that has one (not with
+        # the tool's default): the root's algorithm differs from the default in some variants, and #grand inherits es-256 from #A in others
+        root_alg = "hash-eddsa" if variant % 4 == 3 else "eddsa"
+        grand_inherits = (not omit_mid) and variant % 4 in (0, 2)
         cfg = dict(base)
-        cfg.update(node_cfg("ed25519", 0x100, "eddsa"))
+        cfg.update(node_cfg("ed25519", 0x100, root_alg))
         if omit_root:
-            cfg = dict(base, **{"omit-signing": True, "alg": "eddsa"})
+            cfg = dict(base, **{"omit-signing": True, "alg": root_alg})
         a_cfg = node_cfg("p256", 0x200, "es-256") if not omit_mid else {"omit-signing": True}
-        a_cfg["dependencies"] = {"#grand": node_cfg("p384", 0x300, "es-384")}
-        b_cfg = node_cfg("ed25519_b", 0x400)  # inherits alg eddsa from the root
+        a_cfg["dependencies"] = {"#grand": node_cfg("p256_b", 0x300) if grand_inherits else node_cfg("p384", 0x300, "es-384")}
+        b_cfg = node_cfg("ed25519_b", 0x400)  # inherits its algorithm from the root
         if pre_sign_b:
             b_cfg["already-signed-action"] = "skip" if variant % 2 == 0 else "remove-old"
         cfg["dependencies"] = {"#A": a_cfg, "#B": b_cfg}
-        case = {"variant": variant, "omit_mid": omit_mid, "omit_root": omit_root, "pre_signed_B": pre_sign_b}
+        case = {"variant": variant, "omit_mid": omit_mid, "omit_root": omit_root, "pre_signed_B": pre_sign_b, "root_alg": root_alg, "grand_inherits_from_A": grand_inherits}
         B.case(("tree", variant), sample=case if variant < 2 else None)
         try:
             out = S.recursive(repo, d, root, cfg)
@@ -165,7 +328,7 @@ def bounded(ctx):
                 return f"{label}: expected exactly one signature, found {len(bl)}"
             return S.verify_block(bl[0], dg, keys[key], alg, kid) and f"{label}: " + S.verify_block(bl[0], dg, keys[key], alg, kid)
         ro = S.parse(out)
-        problems = [expect(root, out, "ed25519", "eddsa", 0x100, omit_root, "root")]
+        problems = [expect(root, out, "ed25519", root_alg, 0x100, omit_root, "root")]
         if ro.get("#unnamed") != b"\x01\x02\x03":
             problems.append("unnamed member of the root changed")
         a_out, b_out = ro.get("#A"), ro.get("#B")
@@ -173,12 +336,12 @@ def bounded(ctx):
             problems.append("dependency not re-embedded under the same name")
         else:
             problems.append(expect(childA, a_out, "p256", "es-256", 0x200, omit_mid, "#A"))
-            problems.append(expect(childB, b_out, "ed25519_b", "eddsa", 0x400, False, "#B", pre_signed=(b_cfg.get("already-signed-action") if pre_sign_b else None)))
+            problems.append(expect(childB, b_out, "ed25519_b", root_alg, 0x400, False, "#B", pre_signed=(b_cfg.get("already-signed-action") if pre_sign_b else None)))
             g_out = S.parse(a_out).get("#grand")
             if not isinstance(g_out, bytes):
                 problems.append("grandchild not re-embedded")
             else:
-                problems.append(expect(grand, g_out, "p384", "es-384", 0x300, False, "#A/#grand"))
+                problems.append(expect(grand, g_out, "p256_b", "es-256", 0x300, False, "#A/#grand") if grand_inherits else expect(grand, g_out, "p384", "es-384", 0x300, False, "#A/#grand"))
             if S.parse(a_out).get("#ap") != b"\x07":
                 problems.append("unnamed member of #A changed")
         for p in problems:
